@@ -45,6 +45,7 @@ class Contract:
     attrs: List[str] = field(default_factory=list)      # verifier attributes, e.g. rlimit
     nloops: Optional[int] = None
     common_inv: str = ''   # clauses added to every loop invariant of the fn
+    closures: Dict[str, Dict[str, str]] = field(default_factory=dict)  # let-bound closure name -> {ret, requires, ensures}
     src: str = ''       # vspec file
     line: int = 0
     opens: bool = False  # has any clause
@@ -77,6 +78,17 @@ def load_contracts(cdir=None) -> Dict[Tuple[str, str], Contract]:
                 cur.loops[sect_arg] = parse_loop_spec(text)
             elif sect == 'at':
                 cur.ats.append((sect_arg[0], sect_arg[1:], text))
+            elif sect == 'closure':
+                d = {}
+                k = None
+                for line in text.split('\n'):
+                    m = re.match(r'\s*(ret|requires|ensures)\b(.*)$', line)
+                    if m:
+                        k = m.group(1)
+                        d[k] = m.group(2).strip() + '\n'
+                    elif k:
+                        d[k] += line + '\n'
+                cur.closures[sect_arg] = d
             buf = []
             sect = None
 
@@ -116,6 +128,9 @@ def load_contracts(cdir=None) -> Dict[Tuple[str, str], Contract]:
                     cur.rewrites.extend(arg.split())
                 elif d == '@attr':
                     cur.attrs.append(arg)
+                elif d == '@closure':
+                    sect = 'closure'
+                    sect_arg = arg.strip()
                 elif d == '@common_invariant':
                     cur.common_inv += '        ' + arg.rstrip(',') + ',\n'
                 elif d == '@nloops':
@@ -688,6 +703,35 @@ def splice_body(body, c: Contract, site):
                     j = match_close(toks, j)
                 j += 1
             inserts.append((toks[j].end, ' %s:' % spec['iter'].strip()))
+    for cname, cs in c.closures.items():
+        # locate `let NAME = |params| -> T {`
+        found = False
+        for i, t in enumerate(toks):
+            if t.kind == 'ident' and t.text == 'let' and toks[i + 1].text == cname and toks[i + 2].text == '=' and toks[i + 3].text == '|':
+                j = i + 4
+                while toks[j].text != '|':
+                    j += 1
+                # j is closing bar; expect -> T {
+                if not (toks[j + 1].text == '-' and toks[j + 2].text == '>'):
+                    raise LostAnchor('%s: closure %s has no return type' % (site, cname))
+                k = j + 3
+                while toks[k].text != '{':
+                    k += 1
+                ty = body[toks[j + 3].start:toks[k].start].strip()
+                spec = ''
+                if cs.get('requires', '').strip():
+                    spec += ' requires ' + cs['requires'].strip()
+                if cs.get('ensures', '').strip():
+                    spec += ' ensures ' + cs['ensures'].strip()
+                ret = cs.get('ret', 'r').strip()
+                inserts.append((toks[k].start, spec + ' '))
+                # replace the type by (ret: T): implemented as two inserts around the type
+                inserts.append((toks[j + 3].start, '(%s: ' % ret))
+                inserts.append((toks[k - 1].end, ')'))
+                found = True
+                break
+        if not found:
+            raise LostAnchor('%s: closure `%s` not found' % (site, cname))
     lines_cache = None
     for kind, args, text in c.ats:
         if kind == 'fn_start':
